@@ -38,10 +38,11 @@ for d in sorted(os.listdir(V + "/seeded")):
         "demonstration": {"patch": "demo.diff", "files": demo_files, "test": demo_test.group(1) if demo_test else None},
         "confirmed_here": {
             "where": "a scratch git worktree of /repo HEAD under /tmp/wt (removed afterwards); never applied to /repo except transiently by bin/seedcheck.sh / bin/seed_detect.py, which revert with git checkout",
-            "demo_on_head": ("pass" if head and " ok" in head.group(1) and "FAILED" not in head.group(1) else "see confirm.log"),
-            "demo_with_patch": ("fail" if withp and "FAILED" in withp.group(1) else "see confirm.log"),
+            "demo_on_head": ("pass" if head and "FAILED" not in head.group(1) and (" ok" in head.group(1) or re.search(r"Summary[^\n]*: [1-9]\d* passed", head.group(1))) and not re.search(r"[1-9]\d* failed", head.group(1)) else "see confirm.log"),
+            "demo_with_patch": ("fail" if withp and ("FAILED" in withp.group(1) or re.search(r"[1-9]\d* failed", withp.group(1))) else "see confirm.log"),
             "existing_suite_with_patch": ({"cmd": nx.group(1), "summary": (re.search(r"Summary[^\n]*", nx.group(2)) or [None])[0] if re.search(r"Summary[^\n]*", nx.group(2)) else None,
                                            "failures": re.findall(r"^\s+(?:FAIL|SIGABRT|SIGSEGV|TIMEOUT)[^\n]*", nx.group(2), re.M)} if nx else "pending (bin/confirm_nextest.sh)"),
+            "reruns_alone": re.findall(r"^-- rerun alone: ([^\n]*)\n\s*(Summary[^\n]*)", clog, re.M),
             "note": "the `cargo test -p <crate>` section of confirm.log runs the crate's tests in one process; several faketime / global-state tests fail there on clean HEAD too, so the nextest section (the baseline runner, one process per test) is the decisive one",
             "log": "confirm.log",
         },
